@@ -216,7 +216,7 @@ def check_model(model, case, first=False):
 
 
 def _one(d, ctx, kinds, **gen_kw):
-    case = mm.draw_case(d, kinds, degenerate=True, **gen_kw)
+    case = mm.draw_case(d, kinds, degenerate=True, long_share=6, **gen_kw)
     ctx.describe(**case.describe())
     regular = case.meta.get('profile') == 'regular' and case.N >= 2 * case.D + 2
     ctx.label(case.kind, f'data={case.meta["data"]}', f'init={case.meta["init"]}',
@@ -278,6 +278,79 @@ _make('gmm', 350, 6000)
 _make('vmfmm', 300, 5000)
 _make('gcacgmm', 300, 5000, max_N=25, max_K=4)
 _make('vmfcacgmm', 300, 5000, max_N=25, max_K=4)
+
+
+@subcheck(SUBCHECKS, 'hard_partitions_long_signals', quick=160, thorough=2500)
+def hard_partitions_long_signals(d, ctx):
+    """"all initial affiliations with positive class mass (including hard
+    one-hot ones)", on signals of utterance length: the partition stored as the
+    caller has it - boolean, 8/16/64-bit integers, single or double precision -
+    and a saliency (if any) as a selection of frames in the same kinds of
+    dtype.  Hundreds of frames per class: counts that do not fit 8 bits."""
+    kind = d.choice(['cwmm', 'gmm', 'vmfmm', 'cacgmm', 'gcacgmm', 'vmfcacgmm', 'cbmm'])
+    K = d.int(2, 3)
+    D = d.int(2, 4) if kind != 'cbmm' else d.int(2, 3)
+    N = d.int(150, 200) * d.int(1, 3)
+    lead = (d.int(1, 2),) if (kind in mm.INTEGRATION or d.bool()) else ()
+    rng = d.rng()
+    case = mm.Case(kind=kind, lead=lead, K=K, D=D, N=N,
+                   iterations=d.int(1, 2 if kind == 'cbmm' else 3))
+    complex_ = not mm.real_kind(kind)
+    case.y, labels = mm.cluster_data(rng, lead, K, N, D, complex_, d.choice([0.1, 0.5]))
+    if kind in mm.INTEGRATION:
+        case.E = 3
+        case.emb = rng.normal(size=(*lead, N, 3)) + labels[..., None]
+    # uneven class sizes, every class present
+    lab = np.where(rng.uniform(size=(*lead, N)) < 0.6, 0, rng.integers(0, K, size=(*lead, N)))
+    lab[..., :K] = np.arange(K)
+    onehot = lab[..., None, :] == np.arange(K)[:, None]
+    idt = d.choice([np.int8, np.uint8, np.bool_, np.int16, np.int64, np.float32, np.float64])
+    if kind in mm.INTEGRATION and np.dtype(idt).kind != 'f':
+        # the integration trainers normalise the start in place: they take
+        # floating-point partitions only (integer ones end in a casting error)
+        idt = np.float32 if np.dtype(idt).itemsize <= 2 else np.float64
+    case.init = onehot.astype(idt)
+    case.meta['single'] = np.dtype(idt) == np.float32
+    o = {}
+    skind = d.choice(['none', 'none', 'bool', 'int8', 'float'])
+    if skind == 'bool':
+        sal = rng.uniform(size=(*lead, N)) < 0.8
+        sal[..., :K] = True
+        o['saliency'] = sal
+    elif skind == 'int8':
+        o['saliency'] = rng.integers(1, 4, size=(*lead, N)).astype(np.int8)
+    elif skind == 'float':
+        o['saliency'] = rng.uniform(0.2, 2.0, size=(*lead, N))
+    wca = d.choice(mm.weight_axis_options(kind, len(lead)))
+    o['weight_constant_axis'] = wca
+    case.opts = o
+    case.meta.update(init='onehot:' + np.dtype(idt).name, data='none', profile='long')
+    ctx.describe(**case.describe())
+    ctx.label(kind, 'init=' + np.dtype(idt).name, 'saliency=' + skind)
+    if not class_mass_positive(case.init.astype(float), case):
+        raise Borderline('initial class without mass (in a group of pooled observations)')
+    trace = []
+    from pb_bss import _verif
+
+    def cb(**kw):
+        trace.append((kw['model'], kw['affiliation']))
+    _verif.register(cb)
+    try:
+        model = ctx.lib(
+            mm.fit, case, clause='raises',
+            allow_if=lambda e: mm.explicit_refusal(e) or (
+                # a dtype the trainer does not take (no floating-point view of
+                # an 8-bit saliency): refused, if only by the casting rules
+                skind == 'int8' and 'finfo' in str(e)))
+    finally:
+        _verif.unregister(cb)
+    for _, aff in trace:
+        if not class_mass_positive(aff, case):
+            raise Borderline('class mass vanished during EM')
+    for i, (m_i, _) in enumerate(trace[:-1]):
+        check_model(m_i, case, first=(i == 0))
+    check_model(model, case, first=(case.iterations == 1))
+    ctx.nontrivial(True)
 
 
 # ---------------------------------------------- single-distribution trainers
